@@ -4,6 +4,7 @@ CONSTANTS
   CalVals <- CV_Thin
   Ls <- L_123
   Export = FALSE
+  Canonical = FALSE
   Variant = "code"
 INVARIANT ExactlyOne
 INVARIANT RightPool
